@@ -529,7 +529,9 @@ func runC19(env *core.Env) {
 			c19URI(env, bad, c19Expect{Class: "reject"}, false)
 		}
 	}
-	for _, u := range []string{"urn:uuid:53fefa32-fcbb-4ff8-8a92-55ee120877b7", "urn:oid:1.2.3.4.5", "http://other.example/not/a/resource", "mailto:x@example.org"} {
+	for _, u := range []string{"urn:uuid:53fefa32-fcbb-4ff8-8a92-55ee120877b7", "urn:oid:1.2.3.4.5", "http://other.example/not/a/resource", "mailto:x@example.org",
+		// spellings a URL library would normalise: the reference string is kept as written
+		"URN:UUID:53FEFA32-FCBB-4FF8-8A92-55EE120877B7", "Urn:oid:1.2.3.4.5", "urn:uuid:53FEFA32-fcbb-4ff8-8a92-55ee120877b7", "mailto:X@Example.ORG", "http://other.example/not/a/r%65source", "http://other.example/p%C3%A4th/x?q=a+b"} {
 		if mine() {
 			env.Cover("form:urn")
 			c19URI(env, u, c19Expect{Class: "nonrest"}, true)
